@@ -375,6 +375,58 @@ func runC14(c *Check) {
 		} else {
 			c.Bad("C14-R1", "SaveBlockData ⟂ four-records", fn, p.Pos(save.Pos()), fmt.Sprintf("expected one Put each for header, data, signature, index; found %d puts of kinds %v", len(rows), got), nil)
 		}
+		// a Delete in the same batch: the later operation on a key wins, so deleting a key of a
+		// kind the batch has put needs a test showing that the two keys differ
+		for _, dn := range puts {
+			if !dsCall(dn, "Delete") {
+				continue
+			}
+			dk := ArgTerm(dn, 1)
+			var dctor string
+			var darg *Term
+			dk.Walk(func(t *Term) bool {
+				if l := ctorOf(t); l != "" && len(t.Args) == 1 {
+					dctor, darg = l, t.Args[0]
+				}
+				return true
+			})
+			inst := "SaveBlockData ⟂ delete-in-batch ⟂ " + dctor
+			clash := false
+			okDiff := false
+			for _, o := range rows {
+				if o.ctor == "" || o.ctor != dctor {
+					continue
+				}
+				clash = true
+				var parg *Term
+				o.key.Walk(func(t *Term) bool {
+					if ctorOf(t) == dctor && len(t.Args) == 1 {
+						parg = t.Args[0]
+					}
+					return true
+				})
+				dd := dn
+				for _, f := range g.NecessaryEdges(func(n *Node) bool { return n == dd }) {
+					t, pol := normFact(f.Cond, f.Pol)
+					if darg == nil || parg == nil || len(t.Args) != 2 {
+						continue
+					}
+					a, b := t.Args[0].String(), t.Args[1].String()
+					same := (a == darg.String() && b == parg.String()) || (b == darg.String() && a == parg.String())
+					if same && ((t.IsCall("bytes.Equal") && !pol) || (t.Op == "bin" && ((t.Name == "!=" && pol) || (t.Name == "==" && !pol)))) {
+						okDiff = true
+					}
+				}
+			}
+			switch {
+			case dctor == "":
+				c.Bad("C14-R1", inst, fn, p.InstrPos(dn.In), "the block save deletes a key that is not built by a key constructor: "+trunc(dk.String(), 80), nil)
+			case clash && !okDiff:
+				c.Bad("C14-R1", inst, fn, p.InstrPos(dn.In), "the batch deletes a "+dctor+" record after putting one, without a test that the two keys differ: when they are equal (the same block saved again, e.g. a recovery replay) the delete wins and the record just written is gone — the block is no longer retrievable by that key", nil)
+			default:
+				c.OK("C14-R1", inst, fn, p.InstrPos(dn.In), "the deleted key is of a kind the batch does not put, or is shown to differ from the key put", true)
+			}
+		}
 		if len(commits) != 1 {
 			c.Bad("C14-R1", "SaveBlockData ⟂ single-commit", fn, p.Pos(save.Pos()), fmt.Sprintf("%d Commit calls", len(commits)), nil)
 		} else {
